@@ -291,44 +291,47 @@ func runC04(c *Ctx, r *Report) {
 	}
 	// catch(): an error turned into a value marks the call uncacheable (errors are never cached directly)
 	{
-		fn := c.SSAFn(c.Fn("eval", "State.evalBuiltin"))
 		errT := c.TypeNamed("object", "Error")
 		n := 0
-		eachInstr(fn, func(in ssa.Instruction) {
-			ta, ok := in.(*ssa.TypeAssert)
-			if !ok || !types.Identical(ta.AssertedType, errT) {
-				return
-			}
-			// only where the error's text is taken to build another value (not where the error itself is returned)
-			takesText := false
-			for _, ref := range *ta.Referrers() {
-				if f, ok := ref.(*ssa.Field); ok && f.Field == fieldIndex(errT, "Value") {
-					takesText = true
+		// evalBuiltin and the functions of its package it hands the work to (a case body moved into a method)
+		for _, fn := range c.localHelpers(c.SSAFn(c.Fn("eval", "State.evalBuiltin")), 2, c.Fn("eval", "State.evalInternal"), c.Fn("eval", "State.Eval")) {
+			fn := fn
+			eachInstr(fn, func(in ssa.Instruction) {
+				ta, ok := in.(*ssa.TypeAssert)
+				if !ok || !types.Identical(ta.AssertedType, errT) {
+					return
 				}
-				if ex, ok := ref.(*ssa.Extract); ok && ex.Index == 0 {
-					for _, r2 := range *ex.Referrers() {
-						if f, ok := r2.(*ssa.Field); ok && f.Field == fieldIndex(errT, "Value") {
-							takesText = true
+				// only where the error's text is taken to build another value (not where the error itself is returned)
+				takesText := false
+				for _, ref := range *ta.Referrers() {
+					if f, ok := ref.(*ssa.Field); ok && f.Field == fieldIndex(errT, "Value") {
+						takesText = true
+					}
+					if ex, ok := ref.(*ssa.Extract); ok && ex.Index == 0 {
+						for _, r2 := range *ex.Referrers() {
+							if f, ok := r2.(*ssa.Field); ok && f.Field == fieldIndex(errT, "Value") {
+								takesText = true
+							}
 						}
 					}
 				}
-			}
-			if !takesText {
-				return
-			}
-			n++
-			dom := false
-			for _, tc := range callsIn(fn, trigger) {
-				if instrDominates(tc, ta) {
-					dom = true
+				if !takesText {
+					return
 				}
-			}
-			if !dom { // or afterwards, on every way out
-				dom = mustPassBeforeExit(ta, func(x ssa.Instruction) bool { return isCallTo(x, trigger) }) == nil
-			}
-			r.Check(dom, "C04.R1", ssaFuncName(fn), "an error turned into a value (catch) triggers no-cache", c.Pos(ta.Pos()),
-				"the text of an Error object is taken to build an ordinary value and TriggerNoCache neither precedes it nor follows on every path to a return: the caller is memoized with the caught error (a deadline error of one input is then served for the rest of the session), although error results are never cached")
-		})
+				n++
+				dom := false
+				for _, tc := range callsIn(fn, trigger) {
+					if instrDominates(tc, ta) {
+						dom = true
+					}
+				}
+				if !dom { // or afterwards, on every way out
+					dom = mustPassBeforeExit(ta, func(x ssa.Instruction) bool { return isCallTo(x, trigger) }) == nil
+				}
+				r.Check(dom, "C04.R1", ssaFuncName(fn), "an error turned into a value (catch) triggers no-cache", c.Pos(ta.Pos()),
+					"the text of an Error object is taken to build an ordinary value and TriggerNoCache neither precedes it nor follows on every path to a return: the caller is memoized with the caught error (a deadline error of one input is then served for the rest of the session), although error results are never cached")
+			})
+		}
 		if n == 0 {
 			r.Undecided("C04.R1: no conversion of an Error into a value found in evalBuiltin (catch expected)")
 		}
@@ -1192,4 +1195,39 @@ func (c *Ctx) onlyFalseWhen(fn *ssa.Function, call *ssa.Call) bool {
 		return false
 	}
 	return n > 0
+}
+
+// localHelpers: fn and the functions of its own package it calls statically (transitively up to depth),
+// not going through the functions in stop (the evaluator's entry points): where a body moved into a helper
+// of the same package is still part of the construct a rule looks at.
+func (c *Ctx) localHelpers(fn *ssa.Function, depth int, stop ...*types.Func) []*ssa.Function {
+	stopped := map[*ssa.Function]bool{}
+	for _, f := range stop {
+		if sf := c.SSAFn(f); sf != nil {
+			stopped[sf] = true
+		}
+	}
+	res := []*ssa.Function{fn}
+	seen := map[*ssa.Function]bool{fn: true}
+	frontier := []*ssa.Function{fn}
+	for d := 0; d < depth; d++ {
+		var next []*ssa.Function
+		for _, f := range frontier {
+			eachInstr(f, func(in ssa.Instruction) {
+				call, ok := in.(ssa.CallInstruction)
+				if !ok {
+					return
+				}
+				g := call.Common().StaticCallee()
+				if g == nil || g.Pkg != fn.Pkg || seen[g] || stopped[g] || len(g.Blocks) == 0 {
+					return
+				}
+				seen[g] = true
+				res = append(res, g)
+				next = append(next, g)
+			})
+		}
+		frontier = next
+	}
+	return res
 }
